@@ -5,6 +5,8 @@
 (* attribute active_in_thread).  Abstract level: creating a store is one    *)
 (* atomic step TryCreate(t) that either records t as the owning thread (or  *)
 (* finds t already recorded) and succeeds, or is refused.  The owner is     *)
+(* one record for the whole process (stores created through a subclass of    *)
+(* the store class count like any other) and is                              *)
 (* never reset, also not when stores are closed.  A constructor call that   *)
 (* passes the guard and then fails (inconsistent arguments, missing file,   *)
 (* a file that is not NetCDF) is TryFail(t): no store results; the code has  *)
